@@ -533,13 +533,46 @@ def r4(ctx):
     f = ctx.facts
     d = f.body("<ticket::DocTicket as iroh_tickets::Ticket>::decode_bytes")
     ctx.touch(d)
-    okp = 0
-    for p in P.explore(d):
-        if p.ret[0] == "variant" and p.ret[1] == "Ok":
-            okp += 1
-            emp = [_truth(k, v) for k, v in p.decisions if "is_empty" in str(k)]
-            ctx.check(bool(emp) and all(tv is False for kk, tv in emp), "C09.R4", d.path, "ok-only-with-nodes", "Ok path decided nodes.is_empty() = %s" % [tv for kk, tv in emp], d.sp)
-    ctx.check(okp >= 1, "C09.R4", d.path, "has-ok-path", "%d Ok paths" % okp, d.sp)
+    # decode_bytes evaluated (K6') on what postcard yields: every ticket encode_bytes can have produced from a ticket with at
+    # least one node decodes to exactly that ticket - whatever addressing information the nodes carry (an id alone is a valid
+    # way to name a peer: share(.., AddrInfoOptions::Id)); an empty node list and a postcard error are errors
+    from . import feval as E, coll
+    C = coll.Collections(f)
+
+    def eval_ticket(nodes):
+        def oracle(kind, name, payload, site):
+            if kind != "call":
+                return None
+            t, args, it = payload
+            names = [it.tokname(a) for a in args]
+            if name == "from_bytes":
+                if nodes == "garbage":
+                    return E.Err(E.Tok("postcard-error"))
+                tk = E.struct(f, "ticket::DocTicket", capability=E.Tok("capability"), nodes=coll.seq("vec", [E.Tok(n) for n in nodes]))
+                return E.Ok(E.variant(f, "ticket::TicketWireFormat", "Variant0", tk))
+            if name == "is_empty" and names and names[0].strip("&*").startswith("node-"):
+                return E.Int(1 if names[0].strip("&*").startswith("node-id-only") else 0)     # EndpointAddr::is_empty: no relay url, no direct address
+            if name == "from" and len(args) == 1:
+                return args[0]
+            if name == "verification_failed":
+                return E.Tok("verification-failed")
+            return C.handle(kind, name, payload, site)
+        try:
+            ret, itp = E.run_it(f, d.path, [E.Tok("bytes")], {}, oracle)
+            r = itp.resolve(ret)
+            if r is not None and r[0] == "adt" and r[2] == 0 and r[1] == E.RESULT:
+                tk = itp.resolve(r[3][0])
+                ns = E.field(f, tk, "ticket::DocTicket", "nodes")
+                return "Ok(%s;%s)" % (itp.tokname(E.field(f, tk, "ticket::DocTicket", "capability")), ",".join(itp.tokname(x) for x in ns[2]) if coll.is_seq(ns) else "?")
+            return E.describe(ret, f)
+        except E.Unsupported as e:
+            return "UNSUPPORTED-FORM: %s" % e
+    rows = {}
+    for nodes in ([], ["node-addressed1"], ["node-id-only1"], ["node-id-only1", "node-id-only2"], ["node-id-only1", "node-addressed2"], "garbage"):
+        rows["garbage" if nodes == "garbage" else "[%s]" % ",".join(nodes)] = (eval_ticket(nodes), "Err" if (nodes == "garbage" or not nodes) else "Ok(capability;%s)" % ",".join(nodes))
+    badt = {k: g for k, (g, w) in rows.items() if not (g == w or (w == "Err" and g.startswith("Err")))}
+    ctx.check(not badt, "C09.R4", d.path, "ok-only-with-nodes", "decode_bytes on the node lists postcard yields: %s; deviating from (Ok with exactly the decoded ticket iff at least one node): %s" % ({k: g for k, (g, w) in rows.items()}, badt), d.sp)
+    ctx.check(len(rows) == 6, "C09.R4", d.path, "has-ok-path", "%d ticket cells" % len(rows), d.sp)
     # AuthorHeads::decode / Capability::from_raw propagate decoder errors
     h = f.body("heads::AuthorHeads::decode")
     ctx.touch(h)
